@@ -40,6 +40,8 @@ pub struct Gov {
     pub addr: Vec<u8>,
     pub gw: Gw,
     pub next_msg: u64,
+    /// the approval batches relayed so far (message id, batch, proof): relayers may send a batch again
+    pub relayed: Vec<(Vec<u8>, Vec<u8>, Vec<u8>)>,
 }
 
 impl Gov {
@@ -55,7 +57,8 @@ impl Gov {
             let set = self.gw.sets.last().unwrap().clone();
             let slots = vec![Slot::Valid; set.keys.len()];
             let proof = self.gw.proof(rng, sink, &set, 0, &raw, &slots);
-            self.gw.tx(sink, &user(0), "approveMessages", &[raw, proof]);
+            self.gw.tx(sink, &user(0), "approveMessages", &[raw.clone(), proof.clone()]);
+            self.relayed.push((id.clone(), raw, proof));
         }
         let out = sink.exec(&format!(
             "tx {} {} execute 0 - {}",
@@ -98,7 +101,7 @@ pub fn gen(rng: &mut Rng, n: usize, sink: &mut Sink, focus: &str) {
             sink.exec(&format!("acct {} 5000 -", hex::encode(&gaddr)));
         }
         let mut now = gw.now;
-        let mut g = Gov { addr: gaddr.clone(), gw, next_msg: 0 };
+        let mut g = Gov { addr: gaddr.clone(), gw, next_msg: 0, relayed: vec![] };
         // proposal pool
         let ext = user(5);
         let pool: Vec<Proposal> = vec![
@@ -244,6 +247,12 @@ pub fn gen(rng: &mut Rng, n: usize, sink: &mut Sink, focus: &str) {
                     3 => {
                         // replay of an already processed command
                         if let Some((id, pl)) = used_ids.last().cloned() {
+                            if rng.chance(1, 2) {
+                                // the relayer sends the very same batch and proof once more before the replay
+                                if let Some((_, raw, proof)) = g.relayed.iter().rev().find(|(i, _, _)| *i == id).cloned() {
+                                    g.gw.tx(sink, &user(3), "approveMessages", &[raw, proof]);
+                                }
+                            }
                             g.command(rng, sink, &pl, false, GOV_CHAIN, GOV_ADDR, &caller, Some(id));
                         }
                     }
@@ -413,6 +422,11 @@ pub fn gen(rng: &mut Rng, n: usize, sink: &mut Sink, focus: &str) {
                         let tok = *rng.pick(&["EGLD", TOKENS[0], TOKENS[1], SFT, SFT]);
                         // (a nonce on EGLD or on a fungible token names a different, never credited, asset)
                         let nonce = if tok == SFT { *rng.pick(&[5u64, 6, 0]) } else if rng.chance(1, 5) { *rng.pick(&[7u64, 1]) } else { 0 };
+                        if rng.chance(1, 6) {
+                            // the endpoint takes ONE token: the same token twice, or two tokens, is not a withdrawal
+                            let t2 = if rng.chance(1, 2) { token_arg(tok, nonce) } else { token_arg(TOKENS[1], 0) };
+                            sink.exec(&format!("tx {} {} withdrawRefundToken 0 - {}", hex::encode(&u), hex::encode(&gaddr), args(&[token_arg(tok, nonce), t2])));
+                        }
                         sink.exec(&format!("tx {} {} withdrawRefundToken 0 - {}", hex::encode(&u), hex::encode(&gaddr), args(&[token_arg(tok, nonce)])));
                     }
                     2 => {
@@ -490,7 +504,7 @@ pub fn scenario_f3(rng: &mut Rng, sink: &mut Sink, operator_path: bool) {
     ));
     sink.exec(&format!("acct {} 5000 -", hex::encode(&gaddr)));
     let now = gw.now;
-    let mut g = Gov { addr: gaddr.clone(), gw, next_msg: 0 };
+    let mut g = Gov { addr: gaddr.clone(), gw, next_msg: 0, relayed: vec![] };
     let p = Proposal { target: user(5), call_data: call_data(b"doSomething", &[vec![1]], 0), value: 0, real: false };
     let pa = [p.target.clone(), p.call_data.clone(), nat(p.value)];
     let (sched, cancel, func, caller) = if operator_path { (2u8, 3u8, "executeOperatorProposal", operator.clone()) } else { (0u8, 1u8, "executeProposal", user(3)) };
